@@ -231,6 +231,19 @@ class TheJoker:
             else:
                 ln_prior = return_logprobs
 
+            if n_prior_samples is not None:
+                if n_prior_samples > len(prior_samples):
+                    raise ValueError(
+                        "Number of prior samples to use is greater than the "
+                        "number of prior samples passed: "
+                        f"n_prior_samples={n_prior_samples} vs. "
+                        f"n_total_samples={len(prior_samples)}"
+                    )
+                # use only the first n_prior_samples samples, like the cached path
+                prior_samples = prior_samples[:n_prior_samples]
+                if not isinstance(ln_prior, (bool, type(None))):
+                    ln_prior = ln_prior[:n_prior_samples]
+
             samples = rejection_sample_inmem(
                 joker_helper,
                 prior_samples,
